@@ -240,12 +240,30 @@ CLAIMED.update({
   },
 })
 
+CLAIMED.update({
+  "C08": {
+    "text": "The real scc.reader.to_model runs on SCC lines whose word sequences are drawn by solver-backed selectors from pop-on, "
+            "roll-up and paint-on grammars (rows, PAC colour/italics/underline/indent, tab offsets, standard/special/extended "
+            "characters, backspace, mid-row codes, null padding, ENM/EDM, doubled or single control codes, interleaved channel-2 "
+            "block, parity set/cleared) and whose line time code is a symbolic frame count n0 (NDF 30 fps and DF 30000/1001); "
+            "the document is compared with a reference CEA-608 decoder (two 15x32 memories, cursor, pen, mode, data-channel "
+            "latch, doubled-code rule): same number of display periods, same characters on the same rows in row order, pen "
+            "colour/italics/underline per character, top row from the region origin, and every begin/end proved (SMT, for every "
+            "n0) to lie in the transmission window [n0+i, n0+i+1]/rate of the word that triggers the change; text_align "
+            "configurations in the thorough tier.",
+    "note": "SmpteTimeCode.parse/add_frames/to_temporal_offset are cut at their contract in symbolic runs (decided by C12); one "
+            "SCC line per file; roll-up and paint-on are compared run by run in their final state (the reader's line granularity "
+            "is reported as known finding F-C08-4); columns inside a row, background attributes, roll-up base rows other than 15 "
+            "are outside. Known findings F-C08-1..7 (frame accounting of doubled codes, EDM + 1 frame, composing over flipped "
+            "memory, early roll-up/paint-on text, blank roll-up line, paint-on row clearing) are reported, not suppressed classes "
+            "beyond their keys.",
+    "technique": "bounded exhaustive exploration of protocol grammars by solver selectors + SMT proof of the frame-window claims "
+                 "over a symbolic start frame, against a reference CEA-608 decoder",
+    "design": "DESIGN.md §8.8",
+  },
+})
+
 NOT_YET = {
-  "C08": "solver-based checking would need a reference CEA-608 protocol decoder (two 15x32 memories, pop-on/roll-up/paint-on, duplicate-code "
-         "suppression, transmission windows) precise enough that every disagreement with ttconv's idiosyncratic caption model (roll-up "
-         "anchored to row 15, paint-on split into paragraphs per PAC, alignment guessing) is explainable from CEA-608; that reference could "
-         "not be completed and made silent on the unchanged tree within the build time, and a noisy check is worse than none. The parts it "
-         "rests on are decided elsewhere: word decoding by C17 (all 65 536 words), time-code arithmetic by C12. See DESIGN.md §8.6.",
 }
 
 def main():
